@@ -318,6 +318,28 @@ def run_pairs(shard, rec, B):
 def run_trees(shard, rec, B):
     rng = gen.rng_for(rec)
     kinds = kinds_for(B)
+    # pauli_identity / pauli_zero hand out fresh objects: changing one result must not change later arithmetic with numbers
+    for N in (1, 2, 3):
+        A = B.paulialg
+        for name in ("pauli_identity", "pauli_zero"):
+            ok, a = rec.attempt("ctor.fresh", [name, N], lambda: getattr(A, name)(N))
+            if not ok:
+                continue
+            want = np.eye(2 ** N) * (1 if name == "pauli_identity" else 0)
+            try:
+                a.set_cs(a.cs * 0 + 0.37)
+                a.gs[0, 0] = 1
+            except Exception:
+                pass
+            ok, b = rec.attempt("ctor.fresh", [name, N], lambda: getattr(A, name)(N))
+            if ok:
+                rec.check("ctor.fresh", O.close(dense_of(B, b, N), want, 1e-6), [name, N], True, observed=describe(B, b, N))
+            P = B.Pauli(gen.rand_nonid(rng, N), 0)
+            ok, R = rec.attempt("ctor.fresh", ["P+2", N], lambda: (P + 2, 3 + P.as_polynomial()))
+            if ok:
+                E = dense_of(B, P, N)
+                rec.check("ctor.fresh", O.close(dense_of(B, R[0], N), E + 2 * np.eye(2 ** N), 1e-5) and O.close(dense_of(B, R[1], N), E + 3 * np.eye(2 ** N), 1e-5),
+                          ["number after mutated identity", N], True)
     for t in range(shard["n"]):
         N = int(rng.integers(1, 5))
         pool = [gen.rand_string(rng, N) for _ in range(3)]
@@ -369,6 +391,16 @@ def run_trees(shard, rec, B):
             gs = np.unique(np.stack([gen.rand_string(rng, N) for _ in range(L)]), axis=0)
             cs = np.where(rng.integers(0, 2, len(gs)) == 1, 1e-3 * rng.normal(size=len(gs)), rng.normal(size=len(gs))).astype(complex)
             check_reduce(rec, B, N, B.Poly(gs, rng.integers(0, 4, len(gs)), cs), tol=0.05)
+            # many copies of ONE string, each below the tolerance, together above it: merged first, filtered afterwards
+            for tl in (None, 1e-3):
+                tt = tl if tl is not None else (1e-10 if B.name == "np" else 1e-5)
+                kk = int(rng.integers(20, 80))
+                g1 = gen.rand_string(rng, N)
+                g_other = g1.copy()
+                g_other[0] ^= 1
+                gdup = np.concatenate([np.stack([g1] * kk), g_other[None, :]])
+                cdup = np.concatenate([np.full(kk, 0.8 * tt), [1.0]]).astype(complex)
+                check_reduce(rec, B, N, B.Poly(gdup, np.zeros(len(gdup), dtype=np.int64), cdup), tol=tl)
             # coefficients spread over many decades around the tolerance: kept iff |c| > tol (default and explicit tolerances)
             dec = (10.0 ** -rng.integers(0, 13, len(gs))) * np.where(rng.integers(0, 2, len(gs)) == 1, 1, -1) * (1 + rng.random(len(gs)))
             check_reduce(rec, B, N, B.Poly(gs, rng.integers(0, 4, len(gs)), dec.astype(complex)))
